@@ -25,6 +25,9 @@ META = {
 }
 
 
+META['explanation'] += ' Rounds 4-5: ' + 'R8 (= C10.R3) the tombstone sweep keeps the live children in source order.'
+
+
 def _iter(ctx):
     fn = ctx.func('x12context', 'X12ContextReader.iter_segments')
     g = ctx.cfg(fn)
